@@ -137,7 +137,10 @@ def candidates(m, allowed):
 def st_stage(draw, op, node, m, ctx, allowed, budget):
     n = m.n
     if op == 'map':
-        return {'op': 'map', 'fn': draw(st.integers(0, 3)), 'in': node}
+        out = {'op': 'map', 'fn': draw(st.integers(0, 3)), 'in': node}
+        if draw(st.integers(0, 9)) == 0:
+            out['nested'] = draw(st.sampled_from(['plain', 'prefetch']))
+        return out
     if op == 'nonemap':
         mm = draw(st.integers(1, 3))
         return {'op': 'nonemap', 'm': mm, 'r': draw(st.integers(0, mm - 1)), 'in': node}
